@@ -86,6 +86,37 @@ fn main() {
                 eprintln!("h1: {:?} {:?}", t.elapsed(), h);
             }
         }
+        "flatsearch" => {
+            use dsv::gen::prismatic::*;
+            use dsv::gen::manifold::is_manifold_symbol;
+            let which: usize = args[2].parse().unwrap();
+            let (base, k, name) = family(which);
+            eprintln!("{} base {} k {}", name, base.size, k);
+            for e2 in 0..base.size {
+                for e1 in 0..2 * k {
+                    let (ds, used) = prism_quotient(&base, k, &[(e2, e1)]);
+                    if used == 1 && is_manifold_symbol(&ds) && ds.size < 3 * base.size * 2 * k {
+                        println!("e2={} e1={} size={} H1={:?} oriented={}", e2, e1, ds.size, dsv::props::c15::h1(&ds), dsv::props::c15::is_oriented(&ds));
+                    }
+                }
+            }
+        }
+        "timecovers" => {
+            let ds = DS::parse(&args[2]).unwrap();
+            let k: usize = args[3].parse().unwrap();
+            let t = std::time::Instant::now();
+            let list = rust_dsymbols::covers::covers(&ds.to_partial(), k);
+            eprintln!("covers: {} in {:?}", list.len(), t.elapsed());
+            let t = std::time::Instant::now();
+            let f = dsv::gen::covers::frame(&ds);
+            for y in &list {
+                let y = DS::from_dsym(y);
+                let j = dsv::gen::covers::check_projection(&ds, &y).unwrap();
+                let v = dsv::gen::covers::voltages_from_cover(&ds, &f, &y).unwrap();
+                let _ = dsv::gen::covers::canonical_voltages(&v, j);
+            }
+            eprintln!("validation: {:?}", t.elapsed());
+        }
         "interesting3d" => {
             // 3D symbols of a given size whose euclidicity verdict is decided after simplification
             use rayon::prelude::*;
